@@ -140,6 +140,7 @@ FIELD_TYPES = {
     'Constraint.equality_or_inequality': TStr,
     'reuse_gradient': TBool,
     't0': TInt, 't1': TInt, 't2': TInt,
+    'shape0': TInt, 'shape1': TInt,
 }
 
 
@@ -497,6 +498,8 @@ class Engine:
                 return vreal(to_real(x) / to_real(y))
             if isinstance(op, ast.Pow) and z3.is_int_value(b.t) and b.t.as_long() == 2:
                 return mk(x * x)
+            if isinstance(op, ast.FloorDiv) and both_int and z3.is_int_value(b.t) and b.t.as_long() > 0:
+                return vint(x / y)          # SMT integer division = Python floor division for a positive divisor
         if a.ty.k == 'vec' or b.ty.k == 'vec':
             return self.vec_arith(op, a, b, st, line)
         if a.ty.k == 'arr2' or b.ty.k == 'arr2':
@@ -621,6 +624,13 @@ class Engine:
             return a.py('dict')
         if ka == 'ref' and self.reg.has_contract(a.ty.a[0], '__eq__'):
             raise OutOfSubset('== dispatching to __eq__ as a value at line %d' % line)
+        if ka == 'list' and kb == 'list':
+            # list == list: same length and pairwise equal elements (elements are object references compared by identity:
+            # assumed for the opaque solver objects stored in these lists)
+            i = fresh('i', I)
+            ea, eb = self.list_elem(st, a, i), self.list_elem(st, b, i)
+            return z3.And(st.heap.len(a.t) == st.heap.len(b.t),
+                          z3.ForAll([i], z3.Implies(z3.And(i >= 0, i < st.heap.len(a.t)), ea.t == eb.t)))
         if ka == 'tuple' and kb == 'tuple' and len(a.items) == len(b.items):
             return z3.And(*[self.equal(x, y, st, line) for x, y in zip(a.items, b.items)])
         raise OutOfSubset('equality of %r and %r at line %d' % (a.ty, b.ty, line))
@@ -642,6 +652,8 @@ class Engine:
         if base.ty.k == 'opt':
             self.emit('safe.not_none@%d' % e.lineno, st, z3.Not(base.none), e.lineno, tag='aux')
             base = V(base.ty.a[0], base.t)
+        if base.ty.k == 'ref' and e.attr == 'shape':
+            return V(TTuple(TInt, TInt), items=[vint(st.heap.fld(None, 'shape0', base.t)), vint(st.heap.fld(None, 'shape1', base.t))])
         if base.ty.k == 'ref':
             cls = base.ty.a[0]
             return self.read_field(st, cls, e.attr, base.t)
@@ -731,6 +743,20 @@ class Engine:
             idx = self.ev(e.slice, st)
             if idx.ty.k == 'int' and z3.is_int_value(idx.t):
                 return base.items[idx.t.as_long()]
+        if base.ty.k == 'list' and isinstance(e.slice, ast.Slice):
+            sl = e.slice
+            if sl.upper is None and sl.step is None and sl.lower is not None:
+                lo = self.ev(sl.lower, st)
+                if lo.ty.k == 'int' and z3.is_int_value(lo.t) and lo.t.as_long() >= 0:
+                    k = lo.t.as_long()
+                    out = self.new_list(st, base.ty.a[0])
+                    n = st.heap.len(base.t)
+                    st.heap.set('len', z3.Store(st.heap.A('len'), out.t, z3.If(n >= k, n - k, 0)))
+                    arr = 'eltR' if base.ty.a[0].k == 'real' else 'eltI'
+                    iq = fresh('iq', I)
+                    st.heap.set(arr, z3.Store(st.heap.A(arr), out.t, z3.Lambda([iq], st.heap.A(arr)[base.t][iq + k])))
+                    return out
+            raise OutOfSubset('list slice at line %d' % e.lineno)
         if base.ty.k == 'list':
             idx = self.ev(e.slice, st)
             if idx.ty.k != 'int':
@@ -786,6 +812,32 @@ class Engine:
         d = self.alloc(st, 'dict')
         st.heap.set('dom', z3.Store(st.heap.A('dom'), d, z3.K(Key, False)))
         return V(TDict(vt), d)
+
+    def ev_ListComp(self, e, st):
+        """[f(x) for x in L] over a heap list, f a pure expression: the new list is defined pointwise (no loop is cut)"""
+        g = e.generators[0]
+        if len(e.generators) != 1 or g.ifs or not isinstance(g.target, ast.Name):
+            raise OutOfSubset('list comprehension shape at line %d' % e.lineno)
+        src = self.ev(g.iter, st)
+        if src.ty.k != 'list':
+            raise OutOfSubset('list comprehension over %r at line %d' % (src.ty, e.lineno))
+        iq = fresh('iq', I)
+        sub = st.fork()
+        sub.env[g.target.id] = self.list_elem(sub, src, iq)
+        n_ex, n_ob = len(self.pending_exits), len(self.obls)
+        val = self.ev(e.elt, sub)
+        if len(self.pending_exits) != n_ex or len(self.obls) != n_ob or len(sub.pc) != len(st.pc):
+            raise OutOfSubset('list comprehension whose element expression can raise or needs an obligation, line %d' % e.lineno)
+        if val.ty.k == 'opt':
+            raise OutOfSubset('list comprehension with optional elements at line %d' % e.lineno)
+        out = self.new_list(st, val.ty)
+        n = st.heap.len(src.t)
+        st.heap.set('len', z3.Store(st.heap.A('len'), out.t, n))
+        arr = 'eltR' if val.ty.k == 'real' else 'eltI'
+        newelts = fresh('compelts', IA_R if arr == 'eltR' else IA_I)
+        st.heap.set(arr, z3.Store(st.heap.A(arr), out.t, newelts))
+        st.pc.append(z3.ForAll([iq], z3.Implies(z3.And(iq >= 0, iq < n), newelts[iq] == val.t), patterns=[newelts[iq]]))
+        return out
 
     def ev_DictComp(self, e, st):
         # {key: f(value) for key, value in d.items()}  with f elementwise: desugared to its pointwise meaning
@@ -1059,6 +1111,7 @@ class Engine:
         a = c.adapt_args(self, st, a, line)
         S0 = st.heap.copy()
         st.pc += c.axioms()
+        st.pc += c.defs(S0, a)
         for lab, f in c.requires(S0, a):
             self.emit('call.pre[%s:%s]@%d' % (label, lab, line), st, f, line, tag='aux')
         # exceptional exits
@@ -1686,6 +1739,7 @@ class Engine:
             st.pc.append(f)
         st.pc += c.type_invariants(H0)
         st.pc += c.axioms()
+        st.pc += c.defs(H0, args)
         self.args, self.H0 = args, H0
         pre_state = st.fork()
         try:
